@@ -663,9 +663,9 @@ class CaseRun:
 
         nmax = max([len(g["nodes"]) for g in case["graphs"]] + [0])
         # measured on the pinned tree: <= 400 calls per node for the operations the deep scenarios use (they are
-        # chosen to be linear in the chain length), so 20 000 per node is a 50-fold margin and still finite: an
+        # chosen to be linear in the chain length), so 40 000 per node is a 50-100-fold margin (measured worst case over 150 generator seeds: 696 calls per node for ID, 381 for are_d_separated, 53 for the surgery operations) and still finite: an
         # operation that turns quadratic on a 1 200-node chain is reported as a liveness violation, not waited for
-        budget = STEP_BUDGET + 20_000 * nmax
+        budget = STEP_BUDGET + 40_000 * nmax
         for r, rnd in enumerate(case["rounds"]):
             scripts = rnd["scripts"]
             # ---- scheduler for this round
